@@ -17,10 +17,13 @@ limitations under the License.
 package logging
 
 import (
+	"bytes"
 	"encoding/hex"
 	"encoding/json"
+	"errors"
 	"fmt"
 	"github.com/sirupsen/logrus"
+	"io"
 	"sort"
 	"strings"
 )
@@ -155,9 +158,8 @@ func (parser *PlaintextLogParser) ParseEntry(rawData string) (*ParsedLogEntry, e
 // {"chain": "<val>","integrity":"<val>", "level":"<val>","msg":"<val>","product":"<val>","timestamp":"<val>","unixTime":"<val>","version":"<val>"}
 // {"integrity":"<val>", "level":"<val>","msg":"<val>","product":"<val>","timestamp":"<val>","unixTime":"<val>","version":"<val>"}
 func (parser *JSONLogParser) ParseEntry(rawData string) (*ParsedLogEntry, error) {
-	parsed := make(map[string]interface{})
 	logEntry := &ParsedLogEntry{}
-	err := json.Unmarshal([]byte(rawData), &parsed)
+	parsed, err := unmarshalJSONLogEntry([]byte(rawData))
 	if err != nil {
 		return nil, fmt.Errorf("[json] can't parse integrity: %w", err)
 	}
@@ -193,6 +195,23 @@ func (parser *JSONLogParser) ParseEntry(rawData string) (*ParsedLogEntry, error)
 	}
 	logEntry.RawData = entryData
 	return logEntry, nil
+}
+
+// unmarshalJSONLogEntry decodes one json log entry. Numbers are kept as they are written (json.Number) instead of
+// being converted to float64: otherwise integers above 2^53 are rounded, the integrity check is calculated over
+// the rounded value and a change of their last digits in the log is not noticed by verification.
+func unmarshalJSONLogEntry(data []byte) (map[string]interface{}, error) {
+	parsed := make(map[string]interface{})
+	decoder := json.NewDecoder(bytes.NewReader(data))
+	decoder.UseNumber()
+	if err := decoder.Decode(&parsed); err != nil {
+		return nil, err
+	}
+	// like json.Unmarshal, accept nothing but white space after the entry
+	if _, err := decoder.Token(); err != io.EOF {
+		return nil, errors.New("unexpected data after log entry")
+	}
+	return parsed, nil
 }
 
 func convertMapToBytes(parsed map[string]interface{}) ([]byte, error) {
